@@ -21,4 +21,9 @@ theorem backwards_ends_in_new_header : Facts.c09_backwards_ends_in_new_header = 
 element of the arrival order) -/
 theorem detect_reads_cap : Facts.c09_detect_reads_cap = "i < cap(errc)" := by decide
 
+/-- `findNewPrimary` empties the witness list when the promoted provider was the last usable witness
+(model: `findLoop`'s `removeWitnesses = none` branch); without it a provider is primary and witness
+at once and confirms its own headers. -/
+theorem find_new_primary_clears_witnesses : Facts.c09_find_new_primary_clears_witnesses = true := by decide
+
 end Tmv.Expect.C09
